@@ -237,7 +237,11 @@ func Materialise(dir string, spec Spec) (*Repo, error) {
 				return nil, fmt.Errorf("tree %d: entry target %s %d not yet written (graph not topologically numbered)", i+1, e.K, e.To)
 			}
 			raw, _ := hex.DecodeString(target)
-			body.WriteString(modeOf(e.K))
+			if e.Mode != "" {
+				body.WriteString(e.Mode)
+			} else {
+				body.WriteString(modeOf(e.K))
+			}
 			body.WriteByte(' ')
 			body.Write(r.Names[e.N])
 			body.WriteByte(0)
